@@ -76,7 +76,8 @@ class OdeObj:
         if self.world.fail_at is not None and len(self.world.steps) == self.world.fail_at:
             self._ok = False
         new = [yi + ci * (t - self.t) for yi, ci in zip(self.y.data, self.world.vel())]
-        self.y.data[:] = new          # the wrapper reuses its state buffer
+        self.y._written()
+        self.y._data[:] = new          # the wrapper reuses its state buffer
         self.t = t
         return self.y
 
